@@ -157,6 +157,15 @@ theorem stale_label_breaks_covariance (w : World) (reg sym : Nat) (s : Int) (e :
     simpa [Rat.mul_div_cancel he] using this
   exact hs (by exact_mod_cast h'.symm)
 
+/-- the hypotheses are met by the key of the seeded change C07-d, (registry object, expression), and by a genuine
+    re-scaling 2 m → 8 m under `np.var`'s exponent -/
+example : run ⟨true, true, true, false⟩ (fun _ _ => 1) [] (editHistory 0 0 3 2)
+    = [label ⟨[⟨0, 0, 1⟩], [2]⟩, label ⟨[⟨0, 0, 1⟩], [2]⟩] :=
+  key_without_scale_goes_stale _ rfl rfl _ 0 0 3 2
+example : (label ⟨[World.unit (fun _ _ => 1) 0 0], [2]⟩).scale
+    ≠ (label ⟨[World.unit (World.modify (fun _ _ => 1) 0 0 3) 0 0], [2]⟩).scale :=
+  stale_label_breaks_covariance (fun _ _ => 1) 0 0 3 2 (by decide) (by decide)
+
 /-- so no memo without the scale in its key satisfies what `adequate_key_history_free` states -/
 theorem key_without_scale_not_history_free (k : KeyCfg) (hm : k.memo = true) (hs : k.byScale = false) :
     ∃ (w : World) (h : List Ev), run k w [] h ≠ spec w h := by
